@@ -32,6 +32,9 @@ Decided clauses:
         extent E (store, memcpy / memset with a constant length, a callee that writes a fixed number of bytes - from its stores,
         or from the public *_BYTES constant of its documented output) needs remainder >= E; a variable extent must be the
         remainder itself or be bounded by it through a branch fact (linear arithmetic over the path terms, no wrap-around).
+  R12.9 siblings agree on which pointers may be NULL: when one function hands the same argument list to several callees (a dispatcher
+        over hash algorithms / variants), and one of those callees compares pointer parameter k with NULL, every other one does too
+        (the SHA-256 twin of a hash-to-curve helper calling strlen(ctx) where the SHA-512 twin accepts ctx == NULL).
 NOT decided: absence of out-of-bounds / undefined behaviour in general (needs a relational numeric
 domain over loop indices; goto-analyzer was tried and is unusable — DESIGN §7).
 """
@@ -217,6 +220,7 @@ def run(ctx, chk):
     c20.analyse(prog, _Renamed(chk), "native")
     null_rule(prog, chk)
     block_write_rule(prog, chk)
+    sibling_null_rule(prog, chk)
 
 
 DEREF_FILL = ("memset", "llvm.memset", "sodium_memzero")
@@ -750,3 +754,41 @@ def block_write_rule(prog, chk):
                            detail="" if ok else "%s writes %s byte(s) at %s; the guards on this path only establish that %s byte(s) remain below %s"
                            % (what, T.show(E, fn), T.show(addr, fn), max(beliefs.values()), cap), key="R12.8 %s %s" % (fn.sname, what))
     chk.floor("R12.8", "writes at loop-dependent offsets under a capacity guard", n, 1500)
+
+
+def sibling_null_rule(prog, chk):
+    cg = prog.callgraph()
+    n = 0
+    seen = set()
+    for d in sorted(prog.functions(), key=lambda f: (f.unit, f.name)):
+        groups = {}
+        for iid, res in cg.sites[d.key]:
+            ins = d.insts[iid]
+            ops = tuple(tuple(o[:2]) if o[0] in ("a", "i") else None for o in ins.get("ops", []))
+            if not ops or any(o is None for o in ops) or not any(o[0] == "a" for o in ops):
+                continue
+            for r in res:
+                if r[0] == "fn" and len(r[1].params) == len(ops) and r[1].key != d.key:
+                    groups.setdefault(ops, set()).add(r[1].key)
+        for ops, keys in groups.items():
+            if len(keys) < 2 or frozenset(keys) in seen:
+                continue
+            seen.add(frozenset(keys))
+            sibs = [cg.by_key[k] for k in sorted(keys, key=str)]
+            if len({tuple(q["ty"] for q in g.params) for g in sibs}) != 1:
+                continue
+            tested = {g.key: null_tested_params(g) for g in sibs}
+            for k in range(len(sibs[0].params)):
+                if not sibs[0].params[k]["ty"].endswith("*"):
+                    continue
+                yes = [g for g in sibs if k in tested[g.key]]
+                no = [g for g in sibs if k not in tested[g.key]]
+                if not yes:
+                    continue
+                n += 1
+                chk.ob("R12.9", d, "the callees %s agree that their parameter %d may be NULL" % ("/".join(g.sname for g in sibs), k), not no,
+                       loc=(no[0].loc() if no else d.loc()),
+                       detail="" if not no else "%s tests %s against NULL, %s uses it unconditionally: the same call is safe for one variant "
+                       "and a NULL dereference for the other" % (yes[0].sname, yes[0].params[k]["name"], no[0].sname),
+                       key="R12.9 %s param %d" % ("/".join(g.sname for g in sibs), k))
+    chk.floor("R12.9", "sibling groups with an optional pointer parameter", n, 1)
